@@ -537,6 +537,7 @@ func run(raw json.RawMessage) driver.Result {
 		}
 	}
 	envm := map[string]string{}
+	reused := false
 	nDoc, nDecoy, nBad, nFused := 0, 0, 0, 0
 	bind := func(name, val string) bool {
 		if !validEnvName(name) || forbidden[name] {
@@ -607,13 +608,40 @@ func run(raw json.RawMessage) driver.Result {
 			}
 		}
 	}
+	// One Source value serves two Value calls for the same type: first on an EARLIER environment (the
+	// real one plus other bindings of the leaves' variables, other texts), then - everything unset in
+	// between - on the real one, whose outcome is the case's.  A Source keeps nothing between calls.
+	src := &env.Source{Prefix: prefix}
+	if r.Chance(1, 2) {
+		er := coqfmt.NewRng(r.U64())
+		early := map[string]string{}
+		for k, v := range envm {
+			early[k] = v
+		}
+		for _, l := range leaves {
+			if leafClass(l.typ) != kParse {
+				continue
+			}
+			if name := docName(l, prefix, nd, td); validEnvName(name) && !forbidden[name] && er.Chance(2, 3) {
+				early[name], _ = genTextMode(er, l.typ, false)
+			}
+		}
+		for k, v := range early {
+			os.Setenv(k, v)
+		}
+		valueSafe(src, PT)
+		for k := range early {
+			os.Unsetenv(k)
+		}
+		reused = true
+	}
 	// install the environment (serialised: one case at a time in this process)
 	for k, v := range envm {
 		if err := os.Setenv(k, v); err != nil {
 			panic(fmt.Sprintf("setenv %q: %v", k, err))
 		}
 	}
-	val, err, panicked := valueSafe(&env.Source{Prefix: prefix}, PT)
+	val, err, panicked := valueSafe(src, PT)
 	for k := range envm {
 		os.Unsetenv(k)
 	}
@@ -657,6 +685,9 @@ func run(raw json.RawMessage) driver.Result {
 	tags := []string{fmt.Sprintf("leaves-%d", min(len(leaves), 12)), fmt.Sprintf("bound-%d", min(len(envm), 12))}
 	if prefix != "" {
 		tags = append(tags, "prefix")
+	}
+	if reused {
+		tags = append(tags, "source-reused-after-other-environment")
 	}
 	if len(o.AliasKeys) > 0 {
 		tags = append(tags, "alias-enabled")
